@@ -4,7 +4,18 @@ go 1.16
 
 require (
 	github.com/google/safehtml v0.0.0
-	golang.org/x/text v0.3.3
+	golang.org/x/net v0.34.0
+	golang.org/x/text v0.21.0
 )
 
 replace github.com/google/safehtml => /repo
+
+// golang.org/x/net (its html tokenizer is the differential target of the HTOK stream, -tags htok only)
+// requires newer x/text, x/crypto, x/term than the offline module cache holds; none of their packages is
+// imported through x/net/html, so they are pinned to the cached versions (x/text stays the v0.3.3 that
+// /repo/go.mod requires).
+replace golang.org/x/text => golang.org/x/text v0.3.3
+
+replace golang.org/x/crypto => golang.org/x/crypto v0.0.0-20210921155107-089bfa567519
+
+replace golang.org/x/term => golang.org/x/term v0.6.0
